@@ -46,7 +46,9 @@ def run(c):
               "user types with 0 / 2 arguments rooted at a variable / call / element / conversion, and for every op of the regenerated op table its "
               "selector path on a user type with 0 / 2 / a non-constant argument; distinct by catalogue entry; "
               "stream bytes: random bytes / mutated fixture rules files / mutated generated files; stream notdsl: a fixed catalogue of "
-              "type-correct non-DSL files (incl. the shapes that used to crash Load); stream dsl: first, for EVERY op of the regenerated "
+              "type-correct non-DSL files (incl. the shapes that used to crash Load), a name typematch cannot resolve in every syntactic position "
+              "of a type string under every filter that takes one, and index expressions over arrays / slices / maps of dsl.Var that are not the "
+              "matcher with constant indices of every kind in every position that takes a dsl.Var; stream dsl: first, for EVERY op of the regenerated "
               "filter-op table whose DSL form takes a variable, rules that apply it to a variable no alternative binds / only the first of two "
               "alternatives binds (plain, negated, in && and ||; as either operand of a comparison for the value-typed forms; as the argument "
               "of Type.IdenticalTo) and to a bound one; then generated rules (Where atoms: any op of the table, comparisons over all operand "
@@ -269,6 +271,9 @@ def run(c):
             elif o["kind"] == "error" and not o["located"]:
                 c.fail("oracle", "Load error does not name the file and line", input=inp, observed=o.get("err"),
                        expected="an error mentioning rules.go:<line>")
+            if x.get("want") == "error" and o["kind"] == "ok":
+                c.fail("oracle", "Load accepts a rule that takes a dsl.Var from an array / slice / map that is not the matcher, under a constant index that is "
+                       "not a string (it names no pattern variable)", input=inp, observed="accepted", expected="a located error")
             if x.get("shift"):
                 c.fail("oracle", "the line a Load error names is not a line of the rules file: it does not move when blank lines are inserted above it",
                        input=inp, observed=x["shift"], expected="the same error, 3 lines further down")
